@@ -55,7 +55,7 @@ pub fn describe(tape: &[u32]) -> Value {
     gen_object(&mut t).map(|g| g.desc).unwrap_or(json!(null))
 }
 
-const ESSENTIAL: &[&str] = &["assembled-debug", "assembled-nodebug", "linked", "has-relocation", "multi-block", "source-needs-escape", "external-inside-block", "no-final-newline", "block-longer-than-21845-words"];
+const ESSENTIAL: &[&str] = &["assembled-debug", "assembled-nodebug", "linked", "has-relocation", "multi-block", "source-needs-escape", "external-inside-block", "no-final-newline", "block-longer-than-21845-words", "source-longer-than-64KiB"];
 
 fn run_fmt(ctx: &Ctx, fmt: Fmt, name: &str) -> Outcome {
     let mut out = Outcome::new(&format!(
